@@ -1,6 +1,8 @@
 package rules
 
 import (
+	"go/token"
+	"go/types"
 	"sort"
 	"strings"
 
@@ -21,10 +23,10 @@ type Eff struct {
 	Prefix string // constant name of the first key byte (store effects)
 	Store  ana.StoreOp
 	Bank   ana.BankOp
-	In     *ssa.Function   // function containing At
-	At     ssa.Instruction // instruction inside the semantic function (the op itself or the call to the wrapper)
-	Prim   ssa.Instruction // the primitive instruction
-	Via    []string        // wrapper chain
+	In     *ssa.Function         // function containing At
+	At     ssa.Instruction       // instruction inside the semantic function (the op itself or the call to the wrapper)
+	Prim   ssa.Instruction       // the primitive instruction
+	Via    []string              // wrapper chain
 	Chain  []ssa.CallInstruction // call sites from the semantic function down to the function containing Prim
 }
 
@@ -45,7 +47,7 @@ func (c *Ctx) helperCaller(g *ssa.Function) *ssa.Function {
 		return nil
 	}
 	rt := c.Roots()
-	for _, set := range [][]*ssa.Function{rt.Block, rt.Msg, rt.Gov, rt.InitGen, rt.ExportGen, rt.Query} {
+	for _, set := range [][]*ssa.Function{rt.Block, rt.Msg, rt.Gov, rt.InitGen, rt.Hooks, rt.ExportGen, rt.Query} {
 		if isRoot(g, set) {
 			return nil
 		}
@@ -345,7 +347,6 @@ func viaStr(e Eff) string {
 	return " via " + strings.Join(e.Via, " -> ")
 }
 
-
 // outerValue resolves a value that belongs to the frame of a folded effect to the frame of the semantic
 // function: conversions and one-element slice literals are stripped and a parameter of a folded wrapper /
 // helper is replaced by the actual of the call the effect was folded through.
@@ -473,11 +474,11 @@ func (c *Ctx) isGenesisImport(f *ssa.Function) bool {
 // keyMakerOwner assigns the key constructors of key.go to the property whose index they address.
 var keyMakerOwner = map[string]string{
 	"MakeOrchestratorValidatorAddressKey": "C17", "MakeValidatorExternalAddressKey": "C17", "MakeExternalOrchestratorAddressKey": "C17",
-	"MakeExternalSignatureKey":            "C16",
-	"MakeExternalEventVoteRecordKey":      "C02", "MakeLastEventNonceByValidatorKey": "C02",
-	"MakeOutgoingTxKey":                   "C04", "MakeSendToExternalKey": "C04", "MakeBatchTxKey": "C04", "MakeSignerSetTxKey": "C04", "MakeContractCallTxKey": "C04",
-	"GetTxStatusKey":                      "C04", "GetTxFeeRecordKey": "C19",
-	"GetClaimKey":                         "C18", "GetAttestationKey": "C18", "GetAttestationKeyWithHash": "C18",
+	"MakeExternalSignatureKey":       "C16",
+	"MakeExternalEventVoteRecordKey": "C02", "MakeLastEventNonceByValidatorKey": "C02",
+	"MakeOutgoingTxKey": "C04", "MakeSendToExternalKey": "C04", "MakeBatchTxKey": "C04", "MakeSignerSetTxKey": "C04", "MakeContractCallTxKey": "C04",
+	"GetTxStatusKey": "C04", "GetTxFeeRecordKey": "C19",
+	"GetClaimKey": "C18", "GetAttestationKey": "C18", "GetAttestationKeyWithHash": "C18",
 }
 
 // checkKeyMakers: a store key can only keep apart what enters it.  Every parameter of a key constructor of
@@ -562,7 +563,6 @@ func (c *Ctx) checkKeyMakers(prop string, min int) {
 	}
 }
 
-
 // HelperCandidates lists the private single-caller helpers with effects that are not folded yet.
 func (c *Ctx) HelperCandidates() []*ssa.Function {
 	var out []*ssa.Function
@@ -579,4 +579,115 @@ func (c *Ctx) HelperCandidates() []*ssa.Function {
 		out = append(out, f)
 	}
 	return out
+}
+
+// checkValueSemantics reports two slips of Go's value semantics on the module's own struct types:
+// (lost-update) a method with a value receiver assigns to a field of its receiver and never reads the
+// receiver again – the assignment lands in a copy and is lost; (stale-copy) a struct variable is copied
+// by value into another struct and a field of the variable is assigned afterwards while the variable is
+// still used – the copy keeps the old field value.
+func (c *Ctx) checkValueSemantics(rule string) {
+	p, r := c.P, c.R
+	n := 0
+	for _, f := range p.Funcs {
+		if p.L.IsGenerated(f.Pos()) || f.Blocks == nil {
+			continue
+		}
+		if !(inPkg(f, "mhub2/keeper") || inPkg(f, "mhub2/types") || inPkg(f, "x/mhub2") || inPkg(f, "oracle/keeper") || inPkg(f, "oracle/types")) {
+			continue
+		}
+		for _, a := range allocsIn(f) {
+			st := structOf(a.Type())
+			if st == nil || ana.NamedOf(a.Type()) == nil {
+				continue
+			}
+			var fieldStores []*ssa.Store
+			var wholeLoads []*ssa.UnOp
+			otherUse := false
+			isRecv := false
+			for _, ref := range *a.Referrers() {
+				switch x := ref.(type) {
+				case *ssa.Store:
+					if x.Addr == ssa.Value(a) {
+						// initialisation from the receiver / a parameter
+						if par, ok := x.Val.(*ssa.Parameter); ok && f.Signature.Recv() != nil && len(f.Params) > 0 && par == f.Params[0] {
+							isRecv = true
+						}
+					} else {
+						otherUse = true
+					}
+				case *ssa.FieldAddr:
+					for _, rr := range *x.Referrers() {
+						if s, ok := rr.(*ssa.Store); ok && s.Addr == ssa.Value(x) {
+							fieldStores = append(fieldStores, s)
+						} else {
+							otherUse = true
+						}
+					}
+				case *ssa.UnOp:
+					if x.Op == token.MUL {
+						wholeLoads = append(wholeLoads, x)
+					}
+				default:
+					otherUse = true
+				}
+			}
+			if len(fieldStores) == 0 {
+				continue
+			}
+			n++
+			// lost-update: value receiver, fields assigned, receiver never read again
+			if isRecv && len(wholeLoads) == 0 && !otherUse {
+				if _, ptr := f.Signature.Recv().Type().(*types.Pointer); !ptr {
+					s := fieldStores[0]
+					fld := st.Field(s.Addr.(*ssa.FieldAddr).Field).Name()
+					r.Bad(rule, "lost-update:"+fname(f), c.pos(s), "method "+fname(f)+" has a value receiver and assigns its field "+fld+": the assignment changes a copy and is lost (a pointer receiver is needed)")
+					continue
+				}
+			}
+			// stale-copy: a whole-struct load that is stored into another composite, followed by a field store
+			for _, l := range wholeLoads {
+				copied := false
+				var holder ssa.Value // the composite the copy was put into
+				for _, rr := range *l.Referrers() {
+					if s, ok := rr.(*ssa.Store); ok && s.Val == ssa.Value(l) {
+						if fa, ok := s.Addr.(*ssa.FieldAddr); ok {
+							if root, _ := fieldRoot(fa); root != ssa.Value(a) {
+								copied = true
+								holder = root
+							}
+						}
+					}
+				}
+				if !copied {
+					continue
+				}
+				for _, s := range fieldStores {
+					// assigning the composite that holds the copy to a field of the original is how the two get
+					// linked; that the copy lacks this very field is inherent (a value cannot contain itself)
+					sv := s.Val
+					for i := 0; i < 3; i++ {
+						switch x := sv.(type) {
+						case *ssa.MakeInterface:
+							sv = x.X
+						case *ssa.ChangeType:
+							sv = x.X
+						}
+					}
+					if ld, ok := sv.(*ssa.UnOp); ok && ld.Op == token.MUL && holder != nil && ld.X == holder {
+						continue
+					}
+					if holder != nil && sv == holder {
+						continue // a pointer to the holder
+					}
+					after := (l.Block() == s.Block() && ana.InstrIndex(l) < ana.InstrIndex(s)) || (l.Block() != s.Block() && ana.ReachesWithout(l, s, nil))
+					if after {
+						fld := st.Field(s.Addr.(*ssa.FieldAddr).Field).Name()
+						r.Bad(rule, "stale-copy:"+fname(f), c.pos(s), "in "+fname(f)+" the struct is copied by value (at "+c.pos(l)+") before its field "+fld+" is assigned: the copy keeps the old value of "+fld)
+					}
+				}
+			}
+		}
+	}
+	r.Ok(rule, "scan", "-", sprintf("%d struct variable(s) with field assignments inspected for lost updates and stale copies", n))
 }
